@@ -15,7 +15,7 @@ VERUS = {
     'int_modpow_one': {'file': 'int_modpow_one.rs', 'w32': True},
     # modular/pow.rs `mod single` / `mod double` (macro impl_mod_pow_for_primitive!): pow_word, pow_helper, pow,
     # pow_nontrivial:  residue(ret) == residue(raw)^e mod m for one-word, two-word and multi-word exponents (unbounded),
-    # over the ASSUMED num_modular Reducer contract (sqr / mul); modulus 1 with exponent 0 excluded (genuine defect)
+    # every modulus m >= 1, over the ASSUMED num_modular Reducer contract (sqr / mul); ReducedWord/ReducedDword::one verified
     'int_modpow_single': {'file': 'int_modpow_single.rs', 'w32': True},
     'int_modpow_double': {'file': 'int_modpow_double.rs', 'w32': True},
 }
@@ -50,19 +50,19 @@ PROP_UNITS = {
     'C13': {'verus': ['int_modpow_large', 'int_modpow_one', 'int_modpow_single', 'int_modpow_double'],
             'kani': ['int_modring'],
             'undecided': [
-                'pow (supersedes the first entry of registry_d/modular.py): large::pow / pow_nontrivial / choose_pow_window_len and '
-                'single/double pow_word / pow_helper / pow / pow_nontrivial are PROVED (unbounded exponent); not under contract: the '
-                'three-arm dispatch `Reduced::pow` (pow.rs:30) and ReducedWord/ReducedDword::one (transcribed as stub contracts)',
-                'GENUINE DEFECT excluded by precondition (int_modpow_single): in the ring of modulus 1 pow(0) returns the stored value '
-                '2^63 == the stored modulus: residue() reads 1 (not in [0, 1)), != ring.reduce(1); debug builds panic in '
-                'Reduced::from_single (repr.rs:69).  Input: ConstDivisor::new(UBig::ONE).reduce(5).pow(&UBig::ZERO)',
+                'pow: large::pow / pow_nontrivial / choose_pow_window_len and single/double pow_word / pow_helper / pow / '
+                'pow_nontrivial / ReducedWord::one / ReducedDword::one are PROVED for every modulus m >= 1 and every exponent '
+                '(unbounded length); the three-arm dispatch `Reduced::pow` (pow.rs:30) is not under contract.  (The modulus-1 defect of '
+                'ReducedWord::one -- pow(0) gave residue 1 -- was repaired in /repo 296f9c6; reverting the repair fails '
+                'int_modpow_single::one.)',
                 'int_modpow_large ASSUMES (lib/mp_stubs.rs): exponent UBig::{is_zero, is_one, bit_len, as_words} (value-level '
                 'meaning), ReducedLarge::clone (deep copy), Box<[T]>::as_ref, math::ones_word (2^n - 1: contract of the bits units), '
                 'scratch-memory SIZING (add_layout / array_layout / mul_memory_requirement: a too small area panics, never changes a '
                 'value), panic_allocate_too_much (a possible panic); Memory::allocate_slice_fill (lib/mod2_mem.rs); precondition '
                 'ring length <= Buffer::MAX_CAPACITY (type invariant of a ring built from a Buffer)',
                 'int_modpow_single / int_modpow_double ASSUME the num_modular Reducer contract (PreMulInv2by1 / PreMulInv3by2 '
-                'sqr, mul: stored product reduced, lib/mp_prim*_stubs.rs), UBig::repr() (lib/mp_prim_common.rs) and '
+                'sqr, mul: stored product reduced; ring.shift() / normalized_divisor() accessors; ring well-formedness incl. '
+                'm > Word::MAX for double-word rings: lib/mp_prim*_stubs.rs), UBig::repr() (lib/mp_prim_common.rs) and '
                 'u64::leading_zeros (vstd axiom)',
                 'ring identity (Kani group int_modring, BOUNDED: concrete moduli 1_000_003, 2^64+13, [7,5,2^62+1]): two instances '
                 'with equal modulus panic for all 19 operator forms (single / double word, mixed representations) resp. for '
